@@ -293,9 +293,15 @@ class RealStore:
         ev.update({"op": op, "p": c["p"], "tag": c["tag"], "d": c["d"], "prio": c["prio"],
                    "flt": c["flt"] if c["flt"] in (0, 1, 2, 3) and op == "rg" and self.kind == "filter" else 1})
         hasprio = self.kind in ("prio", "filter") or (self.kind == "fleet" and self.edge is None)
+        rapi = api
+        if self.cfg.get("prio_api"):
+            # belt stores: reservations with a priority are made on the store behind the conveyor edge (the edge's own
+            # reserve_put / reserve_get forward without one); items still enter and leave through the edge
+            hasprio = True
+            rapi = self.store
         with quiet():
             if op == "rp":
-                fn = (lambda: api.reserve_put(c["prio"])) if hasprio else (lambda: api.reserve_put())
+                fn = (lambda: rapi.reserve_put(c["prio"])) if hasprio else (lambda: api.reserve_put())
                 r = self.cmd.call(c["p"], fn)
                 if r[0] == "ret":
                     t = self._new_token(r[1], "put", c["p"], c["prio"] if hasprio else 0, 1)
@@ -310,7 +316,7 @@ class RealStore:
                     f = FILTERS[c["flt"]]
                     fn = lambda: api.reserve_get(c["prio"], f)
                 elif hasprio:
-                    fn = lambda: api.reserve_get(c["prio"])
+                    fn = lambda: rapi.reserve_get(c["prio"])
                 else:
                     fn = lambda: api.reserve_get()
                 r = self.cmd.call(c["p"], fn)
@@ -563,6 +569,59 @@ def random_history(real, rng, nsteps, prios=(0,), filters=(1,), tags=(0,), delay
     evs.extend(real.settle_events())
     return evs
 
+
+
+# ---------------------------------------------------------------------- scripted scenarios (systematic, not random)
+def cancel_scenario(real, n, k, ci, extra, order, maxwait=60):
+    """fill with n items, wait until they are offered, reserve k retrievals, cancel the ci-th of them, reserve `extra`
+    more, then take everything that is granted in issue order or in reverse.  -> list of trace events"""
+    evs = []
+
+    def numbered(tok):
+        for i, t in enumerate(real.live_tokens()):
+            if t is tok:
+                return i + 1
+        return 0
+
+    def do(c):
+        base = {"op": "", "p": 1, "n": 0, "prio": 0, "flt": 1, "tag": 0, "d": 0}
+        base.update(c)
+        ev, _ = real.call(base)
+        evs.append(ev)
+        evs.extend(real.settle_events())
+        return ev
+
+    def tick():
+        evs.append(real.tick())
+        evs.extend(real.settle_events())
+
+    for i in range(n):
+        do({"op": "rp", "p": 1})
+        tok = real.tokens[-1]
+        w = 0
+        while not tok["ev"].triggered and w < maxwait:
+            tick()
+            w += 1
+        if not tok["ev"].triggered:
+            return evs
+        do({"op": "put", "p": 1, "n": numbered(tok)})
+    w = 0
+    while hasattr(real.store, "ready_items") and len(real.store.ready_items) < n and w < maxwait:
+        tick()
+        w += 1
+    gets = []
+    for i in range(k):
+        do({"op": "rg", "p": 1 + (i % 2)})
+        gets.append(real.tokens[-1])
+    do({"op": "cg", "p": 0, "n": numbered(gets[ci])})
+    for i in range(extra):
+        do({"op": "rg", "p": 2})
+        gets.append(real.tokens[-1])
+    live = [t for t in gets if t["state"] == "live" and t["ev"].triggered]
+    for t in (live if order == "fifo" else list(reversed(live))):
+        do({"op": "get", "p": t["owner"], "n": numbered(t)})
+    tick()
+    return evs
 
 
 def reexecute(cfg, events, nprocs=3):
